@@ -100,3 +100,7 @@ where
         Self { objective, selection_size, best_known }
     }
 }
+
+#[cfg(kani)]
+#[path = "/verif/kani/rosomaxa/greedy_proofs.rs"]
+mod verif_kani_proofs;
